@@ -7,6 +7,7 @@ from .. import ops, relang
 from ..algo_eval import country_fields, is_library_exc, struct_positions
 from ..effects import Effects
 from ..gen_eval import GUARDED, pattern
+from ..intrinsics import const_str as _const_str
 from ..interp import CannotEvaluate, PathLimit
 from ..srcmodel import AnalysisError, Func, dotted
 from ..values import AStr, CharSet, ClsRef, Obj, RegexVal
@@ -386,8 +387,7 @@ def _iban_table_iterated(prog, eff):
             for x in ast.walk(expr):
                 if isinstance(x, ast.Call):
                     d = prog.resolve_expr(f.module, x.func) if isinstance(x.func, (ast.Name, ast.Attribute)) else None
-                    if isinstance(d, Func) and d.qualname == "schwifty.registry.get" and x.args and isinstance(x.args[0], ast.Constant) \
-                            and x.args[0].value == "iban":
+                    if isinstance(d, Func) and d.qualname == "schwifty.registry.get" and x.args and _const_str(prog, f.module, x.args[0]) == "iban":
                         return True
             return False
 
